@@ -121,5 +121,44 @@ def collect_plain():
     return _fn("synth::collect", "synth::collect", 1, 9, names, blocks)
 
 
+def find():
+    """find(&mut iter, pred): loop { match iter.next() { Some(x) => if pred(&x) { return Some(x) }, None => return None } }"""
+    # _1 &mut iter, _2 pred, _3 next result, _4 reborrow, _5 &item, _6 &mut pred, _7 bool, _8 discriminant
+    some0 = _pl(3, {"dc": 1, "name": "Some"}, {"f": 0, "ty": None})
+    blocks = [
+        _blk([], {"t": "goto", "target": 1}),
+        _blk([_assign(4, {"k": "ref", "mut": True, "place": _pl(1, "deref")})],
+             {"t": "call", "func": NEXT, "args": [{"move": _pl(4)}], "dest": _pl(3), "target": 2, "fn_exp": False}),
+        _blk([_assign(8, {"k": "discr", "place": _pl(3)})],
+             {"t": "switch", "discr": {"move": _pl(8)}, "ty": None, "targets": [[0, 5], [1, 3]], "otherwise": 6}),
+        _blk([_assign(5, {"k": "ref", "mut": False, "place": some0}),
+              _assign(6, {"k": "ref", "mut": True, "place": _pl(2)})],
+             {"t": "call", "func": {"indirect": {"move": _pl(6)}}, "args": [{"move": _pl(5)}], "dest": _pl(7), "target": 4, "fn_exp": False}),
+        _blk([], {"t": "switch", "discr": {"move": _pl(7)}, "ty": None, "targets": [[0, 1]], "otherwise": 5}),
+        _blk([_assign(0, {"k": "use", "op": {"move": _pl(3)}})], {"t": "return"}),
+        _blk([], {"t": "unreachable"}),
+    ]
+    names = [{"name": "iter", "place": _pl(1), "arg": 1}, {"name": "pred", "place": _pl(2), "arg": 2}]
+    return _fn("synth::find", "synth::find", 2, 9, names, blocks)
+
+
+def count():
+    """count(iter): n = 0; loop { match iter.next() { Some(_) => n += 1, None => return n } }"""
+    # _1 iter, _2 n, _3 next result, _4 &mut iter, _5 discriminant
+    usz = {"ty": None, "bits": 0}
+    blocks = [
+        _blk([_assign(2, {"k": "use", "op": {"const": {"usize": 0}}})], {"t": "goto", "target": 1}),
+        _blk([_assign(4, {"k": "ref", "mut": True, "place": _pl(1)})],
+             {"t": "call", "func": NEXT, "args": [{"move": _pl(4)}], "dest": _pl(3), "target": 2, "fn_exp": False}),
+        _blk([_assign(5, {"k": "discr", "place": _pl(3)})],
+             {"t": "switch", "discr": {"move": _pl(5)}, "ty": None, "targets": [[0, 4], [1, 3]], "otherwise": 5}),
+        _blk([_assign(2, {"k": "bin", "op": "AddUnchecked", "l": {"copy": _pl(2)}, "r": {"const": {"usize": 1}}})], {"t": "goto", "target": 1}),
+        _blk([_assign(0, {"k": "use", "op": {"move": _pl(2)}})], {"t": "return"}),
+        _blk([], {"t": "unreachable"}),
+    ]
+    names = [{"name": "iter", "place": _pl(1), "arg": 1}]
+    return _fn("synth::fold_count", "synth::fold_count", 1, 6, names, blocks)
+
+
 def all_fns():
-    return [for_each(), fold(), collect_filter_map(), collect_plain()]
+    return [for_each(), fold(), collect_filter_map(), collect_plain(), find(), count()]
